@@ -24,12 +24,23 @@ import PyamgV.Driver.C20
 import PyamgV.Driver.ExtGraph
 import PyamgV.Driver.ExtPairwise
 import PyamgV.Driver.ExtMisc
+import PyamgV.Driver.ExtE5
+import PyamgV.Driver.ExtE6
+import PyamgV.Driver.ExtE7
+import PyamgV.Driver.ExtE8
+import PyamgV.Driver.ExtE9
+import PyamgV.Driver.ExtE10
+import PyamgV.Driver.ExtE11
+import PyamgV.Driver.ExtE12
+import PyamgV.Driver.ExtE13
+import PyamgV.Driver.ExtE14
 /-! The line-protocol driver: one request per line, one reply per line. Unknown ops reply `bad-op`. -/
 namespace PyamgV.Drv
 
 def handlers : List (List String → Option String) :=
   [Relax.handle, Graph.handle, Num.handle, C01.handle, C02.handle, C03.handle, C04.handle, C05.handle, C06.handle, C07.handle, C08.handle, C09.handle, C10.handle, C11.handle, C12.handle, C13.handle, C14.handle, C15.handle, C16.handle, C17.handle, C18.handle, C19.handle, C20.handle,
-   ExtGraph.handle, ExtPairwise.handle, ExtMisc.handle]
+   ExtGraph.handle, ExtPairwise.handle, ExtMisc.handle,
+   ExtE5.handle, ExtE6.handle, ExtE7.handle, ExtE8.handle, ExtE9.handle, ExtE10.handle, ExtE11.handle, ExtE12.handle, ExtE13.handle, ExtE14.handle]
 
 def dispatch (toks : List String) : String :=
   match handlers.findSome? (fun h => h toks) with
